@@ -6,5 +6,5 @@ CONSTANTS
   EmitOps = {"checkpoint","cut_points","status","auto","schedule"}
   PathOps = {"message","checkpoint","auto","schedule","run_ended"}
 VIEW View
-INVARIANTS Emit CutPointsAreStrideMessages AutoIdempotent ReadOnlyQuiet LineageSound
+INVARIANTS Emit CutPointsAreStrideMessages AutoIdempotent ReadOnlyQuiet LineageSound BundleSound
 CHECK_DEADLOCK FALSE
